@@ -11,9 +11,9 @@ FUNCTIONS = ["evmap_io_add_", "evmap_io_del_", "evmap_make_space", "event_change
              "select_resize", "select_dispatch"]
 BOUNDS = ("3 I/O events on 2 fds (ev0, ev1 on fd A; ev2 on fd B), interest masks symbolic non-empty subsets of "
           "{EV_READ, EV_WRITE, EV_CLOSED} (select: {EV_READ, EV_WRITE}), EV_ET symbolic per fd (epoll), EV_PERSIST symbolic; "
-          "histories = every legal sequence of add(ev_i)/del(ev_i)/close+reopen(fd_j)/wait of length <= 3 (quick) / <= 4 (thorough; 5 for epoll direct) "
-          "followed by a wait, enumerated up to the ev0<->ev1 symmetry (the shape fixes which event/fd a step targets; everything else is symbolic); "
-          "plus histories of 2 solver-chosen steps; each history runs after a concrete warm-up prefix (add+del of an EV_READ event per fd, one wait) "
+          "histories = ALL sequences of 3 (quick) / 4 (thorough) solver-chosen steps from {add(ev_i), del(ev_i), close+reopen(fd_j), wait} followed by a wait, "
+          "decided in one query per back end, plus fixed deeper shapes (up to 10 steps, two intermediate waits, close+reopen between del and re-add); "
+          "each history runs after a concrete warm-up prefix (add+del of an EV_READ event per fd, one wait) "
           "so tables exist with concrete sizes ('cold' obligations repeat add-only/add-del shapes from the freshly initialised back end); "
           "poll with and without th_base_lock (event_set_copy path); one injected epoll_ctl failure (ENOMEM) on an add for epoll direct")
 OUT = (">2 fds / table growth (pollfd array beyond 32 entries, changelist beyond 64, evmap beyond 32 slots, fd_sets beyond one word: "
@@ -88,34 +88,41 @@ def ob(bn, b, seq, extra=(), tag="", **kw):
     d.update(kw)
     return d
 
+def sym(bn, b, n, **kw):
+    d = dict(name="%s_sym%d" % (bn, n), harness="C05_interest.c", entry="harness_sym",
+             defines=["VP_BACKEND=%d" % b, "VP_WEAKRAND_ZERO", "VP_WARM", "VP_SYMSTEPS=%d" % n] + (["VP_SYM_WITNESSES"] if n >= 3 else []), unwind=8, unwindset=USET.get(bn, []),
+             timeout=900, mem_gb=8,
+             desc="%s: ALL histories of %d solver-chosen steps (each step any of add/del ev0..2, close+reopen fd A/B, wait; illegal ones assumed away) + final wait; masks/ET symbolic" % (bn, n))
+    d.update(kw)
+    return d
+
 def obligations(tier):
     obs = []
-    maxlen = {"quick": 3, "thorough": 4}[tier]
     for bn, b, closes in BACKENDS:
-        top = maxlen + 1 if (tier == "thorough" and bn == "epoll") else maxlen
-        for n in range(1, top + 1):
-            for seq in shapes(n, closes):
-                obs.append(ob(bn, b, seq, extra=["VP_WARM"]))
+        # every history of n steps in one query
+        if tier == "quick":
+            obs.append(sym(bn, b, 3))
+        else:
+            obs.append(sym(bn, b, 3))
+            obs.append(sym(bn, b, 4, timeout=1800, mem_gb=12))
         # deeper close+reopen histories (changelist: pending del+add across a reopen -> MOD/ENOENT -> ADD retry, DEL/ENOENT tolerated)
         if closes:
             for seq in (["ADD(0)", "WAIT", "DEL(0)", "CLOSE(0)", "ADD(1)"], ["ADD(0)", "WAIT", "CLOSE(0)", "DEL(0)", "ADD(0)"],
                         ["ADD(0)", "ADD(1)", "WAIT", "CLOSE(0)", "DEL(0)", "DEL(1)", "ADD(0)"], ["ADD(0)", "WAIT", "DEL(0)", "CLOSE(0)", "ADD(0)", "DEL(0)"],
                         ["ADD(2)", "ADD(0)", "WAIT", "CLOSE(1)", "DEL(2)", "ADD(2)", "WAIT", "CLOSE(0)", "DEL(0)"],
-                        ["ADD(0)", "ADD(1)", "WAIT", "DEL(1)", "CLOSE(0)", "DEL(0)", "ADD(1)"]):
+                        ["ADD(0)", "ADD(1)", "WAIT", "DEL(1)", "CLOSE(0)", "DEL(0)", "ADD(1)"],
+                        ["ADD(0)", "ADD(2)", "WAIT", "DEL(0)", "CLOSE(0)", "ADD(1)", "WAIT", "DEL(2)", "CLOSE(1)", "ADD(2)"]):
                 obs.append(ob(bn, b, seq, extra=["VP_WARM"], tag="_deep"))
-        # close+reopen is a no-op for poll/select (no kernel state); a few shapes show that
-        if not closes:
-            for seq in (["ADD(0)", "WAIT", "DEL(0)", "CLOSE(0)", "ADD(1)"], ["ADD(0)", "CLOSE(0)", "DEL(0)", "ADD(1)"]):
-                obs.append(ob(bn, b, seq, extra=["VP_WARM"]))
+        else:
+            # close+reopen is a no-op for poll/select (no kernel state); a few shapes show that
+            for seq in (["ADD(0)", "WAIT", "DEL(0)", "CLOSE(0)", "ADD(1)"], ["ADD(0)", "ADD(2)", "WAIT", "CLOSE(0)", "DEL(0)", "ADD(1)", "WAIT", "DEL(2)", "ADD(0)"]):
+                obs.append(ob(bn, b, seq, extra=["VP_WARM"], tag="_deep"))
         # from the freshly initialised back end (first allocations on symbolic paths)
         for seq in (["ADD(0)", "ADD(1)", "ADD(2)"], ["ADD(0)", "DEL(0)"], ["ADD(0)", "ADD(2)", "WAIT", "DEL(2)"]):
             obs.append(ob(bn, b, seq, tag="_cold"))
-        # two steps chosen by the solver
-        obs.append(dict(name="%s_sym2" % bn, harness="C05_interest.c", entry="harness_sym",
-                        defines=["VP_BACKEND=%d" % b, "VP_WEAKRAND_ZERO", "VP_WARM", "VP_SYMSTEPS=2"], unwind=8, unwindset=USET.get(bn, []),
-                        timeout=600, mem_gb=5, desc="%s: 2 solver-chosen steps (add/del/close/wait over 3 events, 2 fds) + wait" % bn))
         # NDEBUG twins (as shipped)
-        for seq in (["ADD(0)", "ADD(1)", "DEL(0)"], ["ADD(0)", "WAIT", "DEL(0)", "ADD(1)"]):
+        obs.append(sym(bn, b, 2, ndebug=True, name="%s_sym2_ndebug" % bn))
+        for seq in (["ADD(0)", "ADD(1)", "WAIT", "DEL(0)", "ADD(2)"],):
             obs.append(ob(bn, b, seq, extra=["VP_WARM"], tag="_ndebug", ndebug=True))
     # epoll direct: the kernel refuses one registration (ENOMEM): add reports -1, event stays out, set still exact
     for seq in (["ADD(0)", "ADD(1)", "ADD(2)"], ["ADD(0)", "ADD(1)", "DEL(0)"], ["ADD(0)", "WAIT", "ADD(1)", "ADD(2)"]):
